@@ -26,7 +26,9 @@ RULE = ("Hypothesis draws a valid file (C01 generator) and optionally a fault: b
         "exception inside). After every step /proc/self/fd is compared (gc disabled, exception object kept alive): no "
         "descriptor below the scratch directory may remain except the caller's own; caller streams stay open; repeated "
         "close() is silent; a read after close raises or returns the correct value. Non-trivial: a case in which some "
-        "API call raised or an index file was present. The thorough tier adds an atheris (libFuzzer) campaign over raw bytes.")
+        "API call raised or an index file was present. The thorough tier adds an atheris (libFuzzer) campaign over raw bytes."
+        " Caller streams include an unbuffered raw file object (checked again after the call's exception has been "
+        'released); when an index file exists it is also given directly as the path.')
 ASSUMPTIONS = [
     "Linux /proc/self/fd accounting",
     "TdmsFile.open() itself raising is outside the statement (reported as a statistic)",
